@@ -14,6 +14,8 @@ import (
 	"strings"
 	"sync"
 	"time"
+
+	"verif/engine/internal/smt"
 )
 
 type KnownFinding struct {
@@ -162,6 +164,7 @@ func CheckMain(args []string) int {
 	}
 	var jobsL []job
 	var active []*HarnessSpec
+	var luaHs []*HarnessSpec // kind "lua": handled by runLuaChecks (lua.go), not by engine workers
 	for i := range spec.Harnesses {
 		h := &spec.Harnesses[i]
 		if len(onlySet) > 0 && !onlySet[h.Name] {
@@ -169,6 +172,10 @@ func CheckMain(args []string) int {
 		}
 		ts, ok := h.Tiers[t]
 		if !ok || ts.Skip {
+			continue
+		}
+		if h.Kind == "lua" {
+			luaHs = append(luaHs, h)
 			continue
 		}
 		active = append(active, h)
@@ -180,6 +187,12 @@ func CheckMain(args []string) int {
 			jobsL = append(jobsL, job{h, k, filepath.Join(outDir, fmt.Sprintf("%s-c%d.result.json", h.Name, k))})
 		}
 	}
+	luaCh := make(chan *luaResult, 1)
+	luaJobs := *jobs
+	if len(jobsL) > 0 && len(luaHs) > 0 { // share the cores with the engine workers
+		luaJobs = (*jobs + 1) / 2
+	}
+	go func() { luaCh <- runLuaChecks(prop, t, luaHs, outDir, luaJobs) }()
 	sem := make(chan struct{}, *jobs)
 	var wg sync.WaitGroup
 	for _, j := range jobsL {
@@ -399,6 +412,23 @@ func CheckMain(args []string) int {
 		}
 	}
 
+	// ---- Lua script checks (C08) ----
+	lr := <-luaCh
+	inconclusive = append(inconclusive, lr.Inconclusive...)
+	violations = append(violations, lr.Violations...)
+	totalObl += lr.Obligations
+	totalDis += lr.Discharged
+	totalPaths += lr.States
+	totalForks += lr.Transitions
+	totalReplays += lr.Validated
+	samples = append(lr.Samples, samples...)
+	for q, c := range smt.Global.Queries {
+		solverQ[q] += c
+	}
+	for q, c := range smt.Global.Seconds {
+		solverS[q] += c
+	}
+
 	sort.Strings(knownLines)
 	knownLines = uniq(knownLines)
 	violations = uniq(violations)
@@ -448,6 +478,7 @@ func CheckMain(args []string) int {
 		for _, s := range sortedKeys(intr) {
 			assumptions = append(assumptions, "engine intrinsic model: "+s)
 		}
+		assumptions = append(assumptions, lr.Assumptions...)
 		assumptions = append(assumptions, "go/ssa lowering, the gosym interpreter and the SMT solvers (z3 4.8.12, cvc5 1.0, z3 5.1.0) are trusted; counterexamples are only reported after native replay")
 		ev := map[string]interface{}{
 			"property_id": prop,
@@ -464,6 +495,9 @@ func CheckMain(args []string) int {
 				"explanation":                   "states = symbolic execution paths completed (each covers every input satisfying its path condition); transitions = fork decisions; obligations = SMT queries pc∧¬assert; discharged = answered unsat. traces_validated_against_impl = witness models of completed paths and counterexamples re-run natively (go test -overlay) against the real code",
 				"exhaustive":                    len(inconclusive) == 0,
 				"harnesses":                     hsl,
+				"lua_checks":                    lr.Summaries,
+				"lua_bounds":                    lr.Bounds,
+				"lua_explanation":               luaExplanation(lr),
 				"functions_encoded":             sortedKeys(funcs),
 				"solver_queries":                solverQ,
 				"solver_seconds":                solverS,
@@ -478,6 +512,7 @@ func CheckMain(args []string) int {
 		b, _ := json.MarshalIndent(ev, "", " ")
 		os.WriteFile(filepath.Join(VerifRoot, "evidence", prop+".json"), b, 0o644)
 	}
+	active = append(active, luaHs...)
 	fmt.Printf("check %s tier=%s: harnesses=%d paths=%d obligations=%d discharged=%d violations=%d known=%d inconclusive=%d wall=%.1fs\n",
 		prop, t, len(active), totalPaths, totalObl, totalDis, len(violations), len(knownLines), len(inconclusive), wall)
 	if len(violations) > 0 {
@@ -619,6 +654,9 @@ func ReplayMain(args []string) int {
 	if err != nil {
 		fmt.Fprintln(os.Stderr, err)
 		return 2
+	}
+	if raw, err := os.ReadFile(cexPath); err == nil && bytes.Contains(raw, []byte("\"lua_history\"")) {
+		return luaReplayFile(prop, spec, cexPath, raw)
 	}
 	c, err := readCex(cexPath)
 	if err != nil {
